@@ -27,6 +27,7 @@ def sh(cmd, **kw):
 
 
 def evaluate(seed):
+    seed = os.path.abspath(seed)
     patch = os.path.join(seed, "patch.diff")
     if sh(f"git -C {REPO} status --porcelain -- skfem").stdout.strip():
         sys.exit("refusing: /repo has uncommitted changes under skfem/")
